@@ -834,3 +834,12 @@ mutant("C06-M44", "C06", "R06l", "the 'all' row stored without a copy", PS, "Par
 twin("C06-T12", "C06", "per-population copy through a local", PS, "ParameterSet.__init__", "                    ts[k] = tdve.ts[k].copy()", "                    series = tdve.ts[k].copy()\n                    ts[k] = series")
 twin("C06-T13", "C06", "per-population copy with sc.dcp", PS, "ParameterSet.__init__", 'ts[k] = tdve.ts["All"].copy()', 'ts[k] = sc.dcp(tdve.ts["All"])')
 mutant("C07-M32", "C07", "R01g", "initial occupants spread by dt / duration (seeded C07e)", M, "TimedCompartment.__setitem__", "value.reshape((1, -1)) / (self._vals.shape[0] * np.ones((self._vals.shape[0], 1)))", "value.reshape((1, -1)) * 0.25 * np.ones((self._vals.shape[0], 1))")
+mutant("C08-M25", "C08", "R08i", "parsed function only re-created for parameters with dependencies (seeded C08e)", M, "Parameter.relink", "        if self.fcn_str:\n            self._fcn = parse_function(self.fcn_str)[0]", "        if self.deps and self.fcn_str:\n            self._fcn = parse_function(self.fcn_str)[0]")
+mutant("C08-M26", "C08", "R08i", "characteristic denominator not restored", M, "Characteristic.relink", "        self.denominator = objs[self.denominator] if self.denominator is not None else None", "        pass")
+mutant("C08-M27", "C08", "R08i", "timed compartment relink skips the base class", M, "TimedCompartment.relink", "        Compartment.relink(self, objs)\n", "        Variable.relink(self, objs)\n")
+twin("C08-T8", "C08", "relink tests the function string for emptiness explicitly", M, "Parameter.relink", "        if self.fcn_str:\n            self._fcn", "        if self.fcn_str:\n            # re-parse\n            self._fcn")
+mutant("C10-M28", "C10", "R10g", "saved values written with merged index cells (defect #25 restored)", PS, "Initialization.to_excel", ", merge_cells=False)", ")")
+twin("C10-T3", "C10", "saved values sorted before writing (harmless once cells are not merged)", PS, "Initialization.to_excel", "values = pd.DataFrame(d).T", "values = pd.DataFrame(d).T.sort_index()")
+mutant("C12-M32", "C12", "R12x", "optional effect columns no longer reset per row (seeded C12e)", PR, "ProgramSet._read_effects", "                baseline = None\n                cov_interaction = None\n                imp_interaction = None\n                uncertainty = None\n", "                baseline = None\n", edits=[dict(file=PR, func="ProgramSet._read_effects", old="            for row in table[1:]:", new="            cov_interaction = None\n            imp_interaction = None\n            uncertainty = None\n            for row in table[1:]:"), dict(file=PR, func="ProgramSet._read_effects", old="                baseline = None\n                cov_interaction = None\n                imp_interaction = None\n                uncertainty = None\n", new="                baseline = None\n")])
+mutant("C11-M40", "C11", "R13a", "unfunded programs get coverage 0 without asking get_prop_covered (seeded C11e)", M, "Model.update_pars", "prop_coverage[k] = self.progset.programs[k].get_prop_covered(self.t[ti], self._program_cache[\"capacities\"][k][ti], n)", "prop_coverage[k] = self.progset.programs[k].get_prop_covered(self.t[ti], self._program_cache[\"capacities\"][k][ti], n) if self._program_cache[\"capacities\"][k][ti] > 0 else np.zeros(1)")
+mutant("C13-M27", "C13", "R12a", "programs ordered by outcome instead of effect relative to baseline (seeded C13e)", PR, "Covout.update_outcomes", "key=lambda x: -abs(x[1] - self.baseline)", "key=lambda x: -abs(x[1])")
